@@ -61,6 +61,20 @@ func NewFixture(g *gen.Schema, o bridge.Options) (*Fixture, error) {
 	return f, nil
 }
 
+type ctxKey2 struct{}
+
+// SetRequest installs the per-request root value and context the next Run uses (and the
+// world expects to see in every callback).
+func (f *Fixture) SetRequest(rootID string, altCtx bool) {
+	f.Root = map[string]interface{}{"__id": rootID}
+	if altCtx {
+		f.Ctx = context.WithValue(context.Background(), ctxKey2{}, "other ctx")
+	} else {
+		f.Ctx = context.WithValue(context.Background(), ctxKey{}, "ctx")
+	}
+	f.W.Root, f.W.Ctx = f.Root, f.Ctx
+}
+
 func Parse(text string) (*ast.Document, error) {
 	return parser.Parse(parser.ParseParams{Source: source.NewSource(&source.Source{Body: []byte(text), Name: "GraphQL request"})})
 }
